@@ -26,7 +26,9 @@ RULE = ("enum: all strings of length <= 6 (quick) / 7 (thorough) over {A b 1 2 -
 ASSUMPTIONS = ["reference parser in checks/C20.py encodes the grammar in parse_label's docstring: optional trailing ', then "
                "-digits (co-index), then =digits (gap index), then the first separator splits category and function "
                "when it is neither the first nor the last character",
-               "emptying the function while always_gf is set is not checked (documentation is silent)"]
+               "emptying the function while always_gf is set is not checked (documentation is silent)",
+               "indices are digit strings in the sense of the documented \\d+ (Unicode decimal digits); strings containing characters that str.isdigit() "
+               "accepts but \\d does not (superscripts etc.) are skipped"]
 EXHAUSTIVE_WHOLE = False
 
 
@@ -35,11 +37,11 @@ def refparse(text, sep):
     if text.endswith("'"):
         head, text = "'", text[:-1]
     co = ""
-    match = re.search(r"-([0-9]+)\Z", text)
+    match = re.search(r"-(\d+)\Z", text)
     if match:
         co, text = match.group(1), text[:match.start()]
     gap = ""
-    match = re.search(r"=([0-9]+)\Z", text)
+    match = re.search(r"=(\d+)\Z", text)
     if match:
         gap, text = match.group(1), text[:match.start()]
     gf = "--"
@@ -76,6 +78,10 @@ def parse(text, sep, explicit=True):
 
 def check_string(case):
     text, sep = case["s"], case["sep"]
+    if any(ch.isdigit() != bool(re.match(r"\d", ch)) for ch in text if ord(ch) > 127):
+        # characters such as superscript digits are digits for str.isdigit() but not for the documented \d+:
+        # documentation and implementation disagree on them, neither reading is demanded
+        return
     ref = refparse(text, sep)
     parsed = parse(text, sep)
     got = {f: getattr(parsed, f, None) for f in FIELDS}
